@@ -3,7 +3,7 @@ import itertools, json, os
 import vlib
 from vlib import hexs
 
-REQUIRED = ['findEol_valid_spec', 'findEol_valid_append', 'reader_chunk_independent_partial', 'wellformed_lines_independent_of_cuts', 'next_line_independent_of_state', 'discard_chunk_independent', 'malformed_never_queued', 'legal_payload_queued_exactly', 'terminator_only_at_crlf_dot_crlf_counterexample']
+REQUIRED = ['reader_refines_goodLines', 'reader_refines_goodLines_from', 'reader_chunk_independent_full', 'findEol_valid_spec', 'findEol_valid_append', 'reader_chunk_independent_partial', 'wellformed_lines_independent_of_cuts', 'next_line_independent_of_state', 'discard_chunk_independent', 'malformed_never_queued', 'legal_payload_queued_exactly', 'terminator_only_at_crlf_dot_crlf_counterexample']
 A, D, CR, LF = 0x61, 0x2e, 13, 10
 
 
